@@ -12,6 +12,8 @@ theorem waitAlive_step (hi : Inv s) (h : step s l = some s') : s'.pc 0 = .fWait 
   have h3 := hi.mutex l.tid
   have h4 := hi.othersNotM l.tid
   have h5 := hi.mainIsM
+  have hA := ph_of_pastChk hi l.tid
+  have hB := ph_of_inTask hi l.tid
   step_cases h
   all_goals (
     by_cases h0 : l.tid = 0
@@ -54,6 +56,8 @@ theorem mainWait_step (hi : Inv s) (h : step s l = some s') :
       simp [State.goto, hdet]
     · -- any other step: the old witness is still there, or the premises were false before
       have key : s.pc 0 = .fWaiting ∧ 0 ∈ s.waiters ∧ s.alive = 0 := by
+        have hA := ph_of_pastChk hi l.tid
+        have hB := ph_of_inTask hi l.tid
         step_cases h
         all_goals (
           by_cases h0 : l.tid = 0
